@@ -2,6 +2,7 @@
 closes everything, failed rendezvous never kills the client (client/lib peers.go, webrtc.go)."""
 import itertools
 import os
+import threading
 import vlib
 
 AREA = "peers"
@@ -375,8 +376,8 @@ def gen_close(ctx):
     rest = [s for s in allsc if s not in CLOSE_QUICK]
     ctx.rng.shuffle(rest)
     batches, kinds = [CLOSE_QUICK], ["close-api-directed"]
-    for i in range(0, len(rest), 12):
-        batches.append(rest[i:i + 12])
+    for i in range(0, len(rest), 24):
+        batches.append(rest[i:i + 24])
         kinds.append("close-api-product")
     return batches, kinds
 
@@ -395,6 +396,19 @@ def run(ctx):
         "scripts whose outcome depends on the Go scheduler (flagged by the model adapter) are not compared",
         "failures of CreateDataChannel/CreateOffer/SetLocalDescription are covered by the theorem but cannot be provoked from outside pion, so the correspondence does not exercise them",
     ]
+    # The close scenarios mostly wait (two ReconnectTimeouts each): the driver is started on them now, in the
+    # background, and its answers are compared at the end.
+    batches, b_kinds = gen_close(ctx)
+    b_lines = ["closeconn batch " + ",".join(b) for b in batches]
+    box = {}
+
+    def close_worker():
+        try:
+            box["res"] = vlib.run_impl(exe, b_lines, args=TEST_ARGS)
+        except Exception as e:      # a timeout of the driver: reported as a driver crash below
+            box["res"] = (1, [], str(e))
+    th = threading.Thread(target=close_worker)
+    th.start()
     lines, kinds = gen_peers(ctx)
     # directed scenarios first; if they already fail, the bulk is cut short (a defect that makes calls
     # block costs one watchdog period per op, which would otherwise take very long)
@@ -407,10 +421,19 @@ def run(ctx):
     ctx.correspond(exe, rest_l, rest_k, label="peers", prop=prop, key_of=key_of, impl_args=TEST_ARGS)
     c_lines, c_kinds = gen_connect(ctx)
     ctx.correspond(exe, c_lines, c_kinds, label="connect", prop=prop, key_of=key_of, impl_args=TEST_ARGS, crosscheck=20)
-    batches, b_kinds = gen_close(ctx)
+    th.join()
     ctx.extra["close_api_scenarios"] = sum(len(b) for b in batches)
-    ctx.correspond(exe, ["closeconn batch " + ",".join(b) for b in batches], b_kinds, label="close-api", prop=prop, key_of=key_of,
-                   impl_args=TEST_ARGS, crosscheck=4)
+    rc, b_out, b_err = box["res"]
+    os.makedirs(vlib.TMP, exist_ok=True)
+    stored = os.path.join(vlib.TMP, "c15_close_%d.out" % os.getpid())
+    with open(stored, "w") as fh:
+        fh.write("".join(l + "\n" for l in b_out))
+    if rc != 0:
+        ctx.violation("driver-crash", "implementation driver died on the close scenarios (rc=%s): %s" % (rc, b_err[-600:]),
+                      dict(label="close-api", case=None, stderr=b_err[-2000:]))
+    # the stored answers of the driver are what is compared with the model here
+    ctx.correspond("/bin/cat", b_lines, b_kinds, label="close-api", prop=prop, key_of=key_of, impl_args=[stored], crosscheck=4)
+    os.remove(stored)
     # keep the replay file readable: at most 3 failing inputs per key, shortest first
     per_key, kept = {}, []
     for v in sorted(ctx.violations, key=lambda v: len(str(v["replay"].get("case")))):
